@@ -148,6 +148,20 @@ def vFalse : Bytes := ofString "false"
 /-- Property.IsRequired -/
 def isRequired (a : Args) : Bool := !(has a kRequired [vFalse])
 
+/-- the trailing loop of DefaultTagScanDefinitionRegistryPostProcessor.PostProcessDefinitionRegistry
+    (container/processors/default_tag_scan_definition_registry_post_processor.go:38-42) for one property:
+    `if d.Required && !property.Args().Has(ArgRequired) { property.SetArg(ArgRequired) }` — a scanner whose
+    `Required` field is true stores a bare `Required` marker (NO items) unless the tag text already carries a required
+    argument; a scanner that leaves `Required` at its zero value stores nothing at all -/
+def scanDefault (req : Bool) (a : Args) : Args :=
+  if req && !(has a kRequired []) then setArg a kRequired [] else a
+
+/-- a tag scanner (built-in or user-defined, `Required` = `req`) applied to one tagged field: NewProperty, then the
+    default loop; both creation branches (tag lookup :21-26, ExtractHandler :28-35) end in the same NewProperty.
+    `none` = panic -/
+def scan? (req : Bool) (tag : Bytes) : Option (Bytes × Args) :=
+  (parse? tag).map (fun va => (va.1, scanDefault req va.2))
+
 /-- the ExtractHandler of the value processor: `prop:"k,args"` becomes `${k},args`; `none` = panic -/
 def propShorthand? (tagVal : Bytes) : Option Bytes :=
   let i := index cComma isLB isRB tagVal
